@@ -694,6 +694,46 @@ func init() {
 				o.Case("prop:pure", res, names[i], a.name)
 			}
 		}
+		// independent writers used in turn: what one Writer delivers does not depend on other Writers created or used
+		// between its writes (A writes, B is created, A writes again, B writes; then both flush)
+		for i, m := range pool {
+			if !thorough && i >= 20 {
+				break
+			}
+			f := &wire.File{FEDWireMessage: *m.ToWire()}
+			for _, l := range layouts6 {
+				var solo, bufA, bufB bytes.Buffer
+				res := "same"
+				pn, _ := protect(func() {
+					e0 := wire.NewWriter(&solo, wire.VariableLengthFields(l.v), wire.NewlineCharacter(l.nl)).Write(f)
+					wa := wire.NewWriter(&bufA, wire.VariableLengthFields(l.v), wire.NewlineCharacter(l.nl))
+					e1 := wa.Write(f)
+					wb := wire.NewWriter(&bufB, wire.VariableLengthFields(l.v), wire.NewlineCharacter(l.nl))
+					e2 := wa.Write(f)
+					e3 := wb.Write(f)
+					wa.Flush()
+					wb.Flush()
+					if e0 != nil {
+						if e1 == nil || e2 == nil || e3 == nil || bufA.Len()+bufB.Len() > 0 {
+							res = "differ:a message one Writer refuses is written by Writers used in turn"
+						}
+						return
+					}
+					switch {
+					case e1 != nil || e2 != nil || e3 != nil:
+						res = "differ:a Writer used in turn with another refuses a message a lone Writer writes"
+					case bufA.String() != solo.String()+solo.String():
+						res = fmt.Sprintf("differ:Writer A wrote the message twice but delivered %d bytes, twice the lone output is %d", bufA.Len(), 2*solo.Len())
+					case bufB.String() != solo.String():
+						res = fmt.Sprintf("differ:Writer B wrote the message once but delivered %d bytes, the lone output is %d", bufB.Len(), solo.Len())
+					}
+				})
+				if pn {
+					res = "differ:panic"
+				}
+				o.Case("prop:pure", res, names[i], fmt.Sprint(l.v), l.nl, "writers-in-turn")
+			}
+		}
 		// shared use under the race detector: a separate binary built with -race
 		race := filepath.Join(filepath.Dir(os.Args[0]), "harness-race")
 		if _, err := os.Stat(race); err != nil {
@@ -732,6 +772,15 @@ func init() {
 		for i, m := range pool {
 			fwm := m.ToWire()
 			solo := pureOutputs(fwm)
+			{
+				var own bytes.Buffer
+				w := wire.NewWriter(&own)
+				f := &wire.File{FEDWireMessage: *fwm}
+				e1 := w.Write(f)
+				e2 := w.Write(f)
+				w.Flush()
+				solo += fmt.Sprintf("own-writer=%v,%v:%x;", e1, e2, own.Bytes())
+			}
 			for _, g := range []int{2, 8, 64} {
 				if g == 64 && i%4 != 0 && !thorough {
 					continue
@@ -748,6 +797,14 @@ func init() {
 							}
 						}()
 						results[k] = pureOutputs(fwm)
+						// its own Writer, used twice and flushed: independent of every other goroutine's Writer
+						var own bytes.Buffer
+						w := wire.NewWriter(&own)
+						f := &wire.File{FEDWireMessage: *fwm}
+						e1 := w.Write(f)
+						e2 := w.Write(f)
+						w.Flush()
+						results[k] += fmt.Sprintf("own-writer=%v,%v:%x;", e1, e2, own.Bytes())
 					}(k)
 				}
 				// independent readers and writers next to them
